@@ -219,7 +219,10 @@ def mon_C03(h):
         last = len(h["steps"])
         if h.get("drained", True) and not shut[last]:
             for j in sn["jobs"]:
-                if _waiting(j) and _pipe(h, cur[last], j["pipe"]) is not None:
+                # "of a pipeline that remains defined": defined after every step at which the job was already waiting
+                since = min([k for k, st in enumerate(h["steps"]) if any(x["id"] == j["id"] for x in st["snap"]["jobs"])] or [0])
+                remained = all(_pipe(h, cur[k], j["pipe"]) is not None for k in range(since, last + 1))
+                if _waiting(j) and remained:
                     bad.append((last - 1, "job %d is still waiting after everything drained" % j["id"]))
     return bad
 
